@@ -113,14 +113,15 @@ def _kept_alive_case(rng, method, budget, fault, stop, nth):
     lead = [Req(rng.choice(["GET", "POST", "PUT", "HEAD"]), 0, [OK]) for _ in range(nth - 1)]
     r = Req(method, budget, seq(fault, stop), stop=stop, gap=70 if fault.kind in ("surplus-late", "idle-fin") else 0)
     tail = Req(rng.choice(["GET", "POST"]), 1, [OK])
-    rt = rng.choice([100, 150, 200]) if fault.silent() else cc.LONG_RT
+    rt = fault.rt(rng)
     return Case("kept-alive-%d" % nth, lead + [r, tail], rt=rt, ct=200)
 
 
 CONC_FAULTS = [Fault("rst-after-request"), Fault("fin-after-response-bytes", 0), Fault("fin-after-response-bytes", 30),
                Fault("close-after-response-bytes", 20), Fault("rst-after-response-bytes", 50),
                Fault("malformed", cls="chunk-size-not-hex"), Fault("malformed", cls="cl-duplicate-conflict"),
-               Fault("malformed", cls="version-2.0"),
+               Fault("malformed", cls="version-2.0"), Fault("malformed-close", cls="trailer-field-lone-lf"),
+               Fault("malformed-close", cls="chunk-data-lone-lf"),
                Fault("close-signal", cls="resp-connection-close"), Fault("close-signal-fin", cls="resp-connection-close"),
                Fault("close-signal", cls="resp-http10-no-keepalive"), Fault("surplus"), Fault("close-delimited"),
                Fault("ok", cls="ok-chunked"), OK, OK, OK]
